@@ -21,7 +21,11 @@ META = {
             "(combining also switched on after the peer's EOF / CLOSE), compression off / zlib@openssh.com / zlib "
             "(also crossed with the re-exchange positions), reader chunk sizes {1, 7, all}; exit statuses {0, 1, 255, 2^31}. Oracle: bytes read "
             "per channel and stream == bytes written, in order; with combining, stdout is an order-preserving merge of "
-            "both origin streams with nothing lost; recv_exit_status() == sent status.",
+            "both origin streams with nothing lost; recv_exit_status() == sent status. Plus [parked output] the server "
+            "application writes 1-2 stdout chunks + stderr from inside a request callback (transport thread) while "
+            "a re-exchange (either initiator) is in progress and a user thread sends / shuts down / closes after "
+            "the callback returned: every schedule within delay bound 1/2 of the end of the exchange; the client "
+            "must read the callback's bytes, then the user thread's.",
     "note": "small scope instead of 8 channels x 512 KiB; system runs to quiescence between operations (event mode), "
             "so only operation-level interleavings are explored, not preemptions inside an operation",
     "design_ref": "4/C21",
@@ -305,6 +309,139 @@ def run_race(item, acc):
                     "schedules": res.executions, "end_states(stdout,stderr_left)": [[a.decode(), b.decode()] for a, b in sorted(seen)]})
 
 
+# ------------------------------------------------------------------ data written on the transport thread during a re-exchange
+def make_parked_body(pscn):
+    """The server application writes to the channel from inside a request callback (i.e. on the transport
+    thread) while a re-exchange it started is in progress - that output is parked until NEWKEYS - and, once the
+    callback has returned, a user thread writes more (or shuts down / closes): what the client reads must be
+    the callback's bytes first, then the user thread's, whatever the schedule at the end of the exchange."""
+    cb_writes, user_op, initiator = pscn
+
+    def body(s):
+        import socket
+        from paramiko.common import MSG_CHANNEL_REQUEST
+        p = F.Pair().up()
+        c, sv = p.session()
+        s.quiesce()
+        done = vthreading.Event()
+
+        def exec_cb(channel, command):
+            for k in range(cb_writes):
+                channel.send(b"callback-%d;" % k)
+            channel.send_stderr(b"CALLBACK-ERR;")
+            done.set()
+            return True
+        p.server.check_channel_exec_request = exec_cb
+        p.c2s.gated = p.s2c.gated = True
+        p.tc._send_message(F.msg(MSG_CHANNEL_REQUEST, ("int", c.remote_chanid), ("str", b"exec"), ("bool", True),
+                                 ("str", b"true")))
+        res = {}
+
+        def rekey():
+            try:
+                (p.ts if initiator == "s" else p.tc).renegotiate_keys()
+                res["rekey"] = "ok"
+            except Exception as e:  # noqa
+                res["rekey"] = repr(e)
+
+        def user():
+            done.wait(60)
+            try:
+                if user_op == "send":
+                    sv.send(b"user-thread;")
+                elif user_op == "close":
+                    sv.close()
+                elif user_op == "shutdown_write":
+                    sv.shutdown_write()
+                res["user"] = "ok"
+            except Exception as e:  # noqa
+                res["user"] = repr(e)
+        th, ut = vthreading.Thread(target=rekey), vthreading.Thread(target=user)
+        th.start()
+        s.quiesce()                     # the initiator's KEXINIT is out (held on the wire)
+        ut.start()
+        if initiator == "s":
+            p.c2s.deliver(1)            # the exec request reaches the server while its own KEXINIT is out
+        else:
+            p.c2s.deliver_all()         # the client's KEXINIT was queued behind the request
+        s.quiesce()
+        # the rest of the exchange: every schedule within the delay bound (who gets to send first at NEWKEYS)
+        s.branching = True
+        p.c2s.gated = p.s2c.gated = False
+        p.c2s.deliver_all()
+        p.s2c.deliver_all()
+        s.quiesce()
+        for _ in range(60):
+            if not (th.is_alive() or ut.is_alive()):
+                break
+            s.advance(0.5)
+            s.quiesce()
+        s.branching = False
+        s.advance(0.5)
+        s.quiesce()
+        c.settimeout(1.0)
+        got = {}
+        for name, fn in (("out", c.recv), ("err", c.recv_stderr)):
+            buf = bytearray()
+            while True:
+                try:
+                    d = fn(1 << 16)
+                except socket.timeout:
+                    buf += b"<TIMEOUT>"
+                    break
+                if not d:
+                    break
+                buf += d
+                if user_op == "send" and name == "out" and buf.endswith(b"user-thread;"):
+                    break
+                if name == "err" and buf.endswith(b"CALLBACK-ERR;"):
+                    break
+            got[name] = bytes(buf)
+        active = (p.tc.is_active(), p.ts.is_active())
+        p.close()
+        s.quiesce()
+        expect_out = b"".join(b"callback-%d;" % k for k in range(cb_writes)) + (b"user-thread;" if user_op == "send" else b"")
+        return got, expect_out, res, active
+    return body
+
+
+def run_parked(item, acc):
+    tier, pscn, bound = item
+    body = make_parked_body(pscn)
+    seen = set()
+
+    def on_exec(ex):
+        acc.ev()
+        if ex.outcome != "ok":
+            acc.violation("parked-output:%s:%s" % (ex.outcome, type(ex.error).__name__),
+                          {"scn": pscn, "err": repr(ex.error)[:300]}, {"parked": pscn, "choices": ex.choices})
+            return
+        got, expect_out, res, active = ex.value
+        if (got["out"], got["err"]) not in seen:
+            seen.add((got["out"], got["err"]))
+        acc.nt(("parked", pscn, tuple(ex.choices)))
+        v = None
+        if res.get("rekey") != "ok" or not all(active):
+            v = "parked-output:re-exchange-fails-or-session-dies"
+        elif got["out"].replace(b"<TIMEOUT>", b"") != expect_out:
+            lost = len(got["out"].replace(b"<TIMEOUT>", b"")) < len(expect_out)
+            v = "parked-output:stream-differs:stdout:" + ("bytes-lost" if lost else "out-of-order")
+        elif got["err"].replace(b"<TIMEOUT>", b"") != b"CALLBACK-ERR;":
+            v = "parked-output:stream-differs:stderr"
+        if v:
+            acc.violation(v + ":user-" + pscn[1], {"scn": pscn, "stdout": got["out"].decode("latin1"),
+                                                  "stderr": got["err"].decode("latin1"), "expected_stdout": expect_out.decode(),
+                                                  "results": res, "choices": ex.choices},
+                          {"parked": pscn, "choices": ex.choices})
+    res = explore.explore(body, bound, "delay", cap=3000, on_exec=on_exec, sched_kw={"horizon": S.EPOCH + 300})
+    acc.count("parked_output_schedules", res.executions)
+    if res.capped:
+        acc.note("cap 3000 hit (parked output) %r" % (pscn,))
+    if len(acc.samples) < 6:
+        acc.sample({"parked_output": {"callback_writes": pscn[0], "user_thread": pscn[1], "initiator": pscn[2]},
+                    "schedules": res.executions, "distinct_results": len(seen)})
+
+
 # ------------------------------------------------------------------ channel closed & dropped, new one opened
 def make_reopen_body(rscn):
     drop_ref, old_kind, n_new = rscn
@@ -490,6 +627,9 @@ def main(tier):
     ck.merge(core.pmap(races, run_race))
     reopen = [(tier, (d, k, n)) for d in (True, False) for k in ("data", "ext", "data+close") for n in (1, 2)]
     ck.merge(core.pmap(reopen, run_reopen))
+    parked = [(tier, (n, uop, ini), 1 if tier == "quick" else 2) for n in (1, 2)
+              for uop in ("send", "close", "shutdown_write") for ini in ("s", "c")]
+    ck.merge(core.pmap(parked, run_parked))
     for n in ck.acc.notes:
         ck.cap_hit(n)
     return ck.finish()
@@ -497,6 +637,15 @@ def main(tier):
 
 def replay(rec):
     r = rec["replay"]
+    if "parked" in r:
+        ex = explore.replay(make_parked_body(tuple(r["parked"])), r["choices"], "delay", {"horizon": S.EPOCH + 300})
+        print(ex.outcome, ex.error, ex.value)
+        if ex.outcome != "ok":
+            return 1
+        got, expect_out, res, active = ex.value
+        bad = (res.get("rekey") != "ok" or not all(active) or got["out"].replace(b"<TIMEOUT>", b"") != expect_out
+               or got["err"].replace(b"<TIMEOUT>", b"") != b"CALLBACK-ERR;")
+        return 1 if bad else 0
     if "reopen" in r:
         ex = S.run_once(make_reopen_body(tuple(r["reopen"])), horizon=S.EPOCH + 300)
         print(ex.outcome, ex.error, ex.value)
